@@ -73,10 +73,6 @@ theorem C04_in_splitters (venv : VEnv) (s : Spl) (hwf : WellFormed s) (hk : Keys
     statesVal venv s = ofSpec (expandVal venv s) :=
   C01_refines venv s hwf hk hr
 
-private def n1 : Nested := .leaf 1
-private def n2 : Nested := .leaf 2
-private def n3 : Nested := .leaf 3
-
 /-- Witness D3 (ragged): `[[1,2],[3]]` with container dimension 2 runs over 1, 2 only; 3 is dropped. -/
 theorem C04_witness_ragged :
     elements [.node [.leaf 1, .leaf 2], .node [.leaf 3]] 2 = .ok [.leaf 1, .leaf 2] ∧
